@@ -641,7 +641,8 @@ func c01WF(c corr.Case) bool {
 }
 
 // "ab" shares a string prefix with "a": a subtree operation on /a must leave /ab alone
-var c01Segs = []string{"a", "b", "c", "ab"}
+// ("..x": an ordinary name that merely begins with two dots)
+var c01Segs = []string{"a", "b", "c", "ab", "..x"}
 
 func randPath(r *corr.Rand, maxDepth int) string {
 	d := 1 + r.Intn(maxDepth)
@@ -680,6 +681,8 @@ func spell(r *corr.Rand, s *wf, p string) string {
 	res := "/" + strings.Join(out, "/")
 	if r.Chance(15) {
 		res += "/"
+	} else if r.Chance(12) {
+		res += "/." // a final "." element
 	}
 	if r.Chance(10) {
 		res = "/" + res
